@@ -452,3 +452,183 @@ pub fn three_man_families() -> Vec<MenFamily> {
     }
     v
 }
+
+// ------------------------------------------------------------------------------------------
+// Feature-covering roots.  Positions are found by a reference-only breadth-first search below
+// dense base positions (openings played out by the reference model, the curated roots); one
+// representative (the first in BFS order) is kept per *feature signature* — the combination of
+// check kind, pins, en-passant state, castling state, promotion availability and classes of
+// pseudo-legal-but-illegal moves.  The list is generated offline by `cv --gen-feature-roots`
+// (reference model only, the library is not consulted) and stored in feature_roots.txt.
+
+pub const OPENING_LINES: &[&str] = &[
+    "e2e4 e7e5 g1f3 b8c6 f1b5 a7a6 b5a4 g8f6 e1g1 f8e7 f1e1 b7b5 a4b3 d7d6 c2c3 e8g8 h2h3 c6a5 b3c2 c7c5 d2d4 d8c7",
+    "e2e4 c7c5 g1f3 d7d6 d2d4 c5d4 f3d4 g8f6 b1c3 a7a6 c1e3 e7e5 d4b3 c8e6 f2f3 f8e7 d1d2 e8g8 e1c1 b8d7 g2g4 b7b5",
+    "d2d4 d7d5 c2c4 e7e6 b1c3 g8f6 c1g5 f8e7 e2e3 e8g8 g1f3 h7h6 g5h4 b7b6 c4d5 f6d5 h4e7 d8e7 c3d5 e6d5 a1c1 c8e6",
+    "d2d4 g8f6 c2c4 g7g6 b1c3 f8g7 e2e4 d7d6 g1f3 e8g8 f1e2 e7e5 e1g1 b8c6 d4d5 c6e7 f3e1 f6d7 e1d3 f7f5 c1d2 d7f6",
+    "e2e4 e7e6 d2d4 d7d5 b1c3 f8b4 e4e5 c7c5 a2a3 b4c3 b2c3 g8e7 d1g4 d8c7 g4g7 h8g8 g7h7 c5d4 g1e2 b8c6 f2f4 c8d7",
+    "e2e4 c7c6 d2d4 d7d5 e4e5 c8f5 g1f3 e7e6 f1e2 c6c5 c1e3 c5d4 f3d4 g8e7 c2c4 b8c6 d1a4 d5c4 b1c3 f5g6 e1c1 a7a6",
+    "c2c4 e7e5 b1c3 g8f6 g1f3 b8c6 g2g3 d7d5 c4d5 f6d5 f1g2 d5b6 e1g1 f8e7 a2a3 e8g8 b2b4 c8e6 a1b1 f7f6 d2d3 a7a5",
+    "e2e4 e7e5 f2f4 e5f4 g1f3 g7g5 h2h4 g5g4 f3e5 g8f6 f1c4 d7d5 e4d5 f8d6 d2d4 f6h5 e1g1 d8h4 d1e1 h4e1 f1e1 e8g8",
+    "e2e4 d7d5 e4d5 d8d5 b1c3 d5a5 d2d4 g8f6 g1f3 c7c6 f1c4 c8f5 c1d2 e7e6 d1e2 f8b4 e1c1 b8d7 a2a3 b4c3 d2c3 a5c7",
+    "g1f3 d7d5 g2g3 c7c5 f1g2 b8c6 e1g1 e7e5 d2d3 g8f6 b1d2 f8e7 e2e4 e8g8 f1e1 d5d4 d2c4 d8c7 a2a4 c8e6 f3g5 e6c4",
+    "e2e4 e7e5 g1f3 g8f6 f3e5 d7d6 e5f3 f6e4 d2d4 d6d5 f1d3 b8c6 e1g1 f8e7 c2c4 c6b4 d3e2 e8g8 b1c3 c8e6 a2a3 e4c3",
+    "d2d4 f7f5 g2g3 g8f6 f1g2 e7e6 g1f3 f8e7 e1g1 e8g8 c2c4 d7d6 b1c3 d8e8 f1e1 e8g6 e2e4 f5e4 c3e4 f6e4 e1e4 b8c6",
+];
+
+/// Feature signature of a position (reference model only).
+pub fn signature(p: &RefPos) -> u64 {
+    let legal = p.legal_moves();
+    let illegal = p.illegal_pseudo_moves();
+    let chk = p.checkers();
+    let kind_code = |s: Sq| match p.at(s).map(|x| x.0) {
+        Some(Kind::P) => 1u64,
+        Some(Kind::N) => 2,
+        Some(Kind::B) => 3,
+        Some(Kind::R) => 4,
+        Some(Kind::Q) => 5,
+        _ => 6,
+    };
+    let mut sig: u64 = p.stm as u64;
+    // check: 0 none, single: kind code, double: 7 + pair code
+    let c = match chk.len() {
+        0 => 0,
+        1 => kind_code(chk[0]),
+        _ => 7 + kind_code(chk[0]) * 7 + kind_code(chk[1]),
+    };
+    sig = sig * 64 + c;
+    // pins: count (0..3), kinds of the pinned men, directions of the pin lines
+    let pins = p.pinned(p.stm);
+    let ksq = p.king_sq(p.stm).unwrap_or(0);
+    let mut kinds = 0u64;
+    let mut dirs = 0u64;
+    for s in pins.iter() {
+        kinds |= 1 << (kind_code(*s) - 1);
+        let (df, dr) = (file_of(*s) - file_of(ksq), rank_of(*s) - rank_of(ksq));
+        dirs |= if df == 0 {
+            1
+        } else if dr == 0 {
+            2
+        } else if df == dr {
+            4
+        } else {
+            8
+        };
+    }
+    sig = sig * 4 + (pins.len().min(3) as u64);
+    sig = sig * 32 + kinds;
+    sig = sig * 16 + dirs;
+    // en passant: none / double push without neighbour / neighbour but no legal capture / 1 / 2 legal captures
+    let nep = legal.iter().filter(|m| p.is_ep(**m)).count();
+    let ep = if p.dp < 0 {
+        0
+    } else if !p.ep_adjacent() {
+        1
+    } else if nep == 0 {
+        2
+    } else {
+        2 + nep.min(2) as u64
+    };
+    sig = sig * 5 + ep;
+    // castling: my rights, legal castles, opponent's rights
+    let mine = (p.has_k(p.stm) as u64) | ((p.has_q(p.stm) as u64) << 1);
+    let theirs = (p.has_k(p.stm.flip()) as u64) | ((p.has_q(p.stm.flip()) as u64) << 1);
+    let mut can = 0u64;
+    for m in legal.iter().filter(|m| p.is_castle(**m)) {
+        can |= if file_of(m.to) == 6 { 1 } else { 2 };
+    }
+    sig = sig * 4 + mine;
+    sig = sig * 4 + can;
+    sig = sig * 4 + theirs;
+    // promotions available: push, capture
+    let mut promo = 0u64;
+    for m in legal.iter().filter(|m| m.promo.is_some()) {
+        promo |= if p.is_capture(*m) { 2 } else { 1 };
+    }
+    sig = sig * 4 + promo;
+    // classes of pseudo-legal but illegal moves
+    let mut ill = 0u64;
+    for m in illegal.iter() {
+        ill |= if p.is_ep(*m) {
+            1
+        } else if matches!(p.at(m.from), Some((Kind::K, _))) {
+            2
+        } else if pins.contains(&m.from) {
+            4
+        } else {
+            8 // a non-king, non-pinned man that may not move: it does not resolve a check
+        };
+    }
+    sig = sig * 16 + ill;
+    // terminal?
+    sig = sig * 2 + legal.is_empty() as u64;
+    sig
+}
+
+/// Reference-only BFS below the base positions; one position per new signature.
+pub fn generate_feature_roots(depth: u32, per_base_cap: usize) -> Vec<RefPos> {
+    use rayon::prelude::*;
+    let mut bases: Vec<RefPos> = vec![];
+    for line in OPENING_LINES {
+        let mut p = RefPos::from_fen("rnbqkbnr/pppppppp/8/8/8/8/PPPPPPPP/RNBQKBNR w KQkq - 0 1").unwrap();
+        for (i, m) in line.split_whitespace().enumerate() {
+            let mv = RMove::parse_uci(m).unwrap_or_else(|| panic!("machinery: bad opening move {m}"));
+            assert!(p.legal_moves().contains(&mv), "machinery: opening move {m} illegal in {}", p.fen());
+            p = p.apply(mv);
+            if i >= 7 && i % 4 == 3 {
+                bases.push(p);
+            }
+        }
+    }
+    bases.extend(roots().into_iter().filter(|r| r.pos.men() >= 7).map(|r| r.pos));
+    // per base: BFS, collect (signature, position) of first occurrences
+    let found: Vec<Vec<(u64, RefPos)>> = bases
+        .par_iter()
+        .map(|b| {
+            let mut seen_pos: BTreeSet<RefPos> = BTreeSet::new();
+            let mut sigs: std::collections::BTreeMap<u64, RefPos> = std::collections::BTreeMap::new();
+            let mut frontier = vec![*b];
+            for _ in 0..=depth {
+                let mut next = vec![];
+                for p in frontier.iter() {
+                    if !seen_pos.insert(*p) {
+                        continue;
+                    }
+                    sigs.entry(signature(p)).or_insert(*p);
+                    if seen_pos.len() < per_base_cap {
+                        for m in p.legal_moves() {
+                            next.push(p.apply(m));
+                        }
+                    }
+                }
+                frontier = next;
+            }
+            sigs.into_iter().collect()
+        })
+        .collect();
+    let mut all: std::collections::BTreeMap<u64, RefPos> = std::collections::BTreeMap::new();
+    for v in found {
+        for (s, p) in v {
+            all.entry(s).or_insert(p);
+        }
+    }
+    all.into_values().collect()
+}
+
+/// The stored feature roots (harness/feature_roots.txt), each validated by the reference.
+pub fn feature_roots() -> Vec<RefPos> {
+    let txt = include_str!("../feature_roots.txt");
+    let mut out = vec![];
+    for line in txt.lines() {
+        let line = line.trim();
+        if line.is_empty() || line.starts_with('#') {
+            continue;
+        }
+        let p = RefPos::from_fen(line).unwrap_or_else(|e| panic!("machinery: bad feature root {line}: {e}"));
+        if let Some(r) = p.invalid_reason() {
+            panic!("machinery: feature root {line} invalid: {r}");
+        }
+        out.push(p);
+    }
+    out
+}
